@@ -17,7 +17,7 @@ from vf.common import CaseResult, Check, Scratch, rng_for
 from vf.interpose import Interposer
 
 HISTORIES = ["clean", "orphan_next", "orphan_equal_older", "orphan_equal_newer", "clean_expired"]
-OPS = ["load", "create", "append", "gc", "append_lose_again"]
+OPS = ["load", "create", "append", "gc", "append_lose_again", "create_listfail_once", "create_listfail_persistent", "load_listfail_persistent"]
 
 
 def pointer_grammar(cur: str, old: str, orph: Optional[str], n: int, tier: str) -> List[Tuple[str, str, Optional[bytes]]]:
@@ -180,8 +180,36 @@ class C10(Check):
                 exp_rows = list(C["rows"])
                 exp_ids = list(C["ids"])
                 # ---- the follow-up operation ----
+                listfail = {"mode": None, "n": 0}
+                if "listfail" in case["op"]:
+                    listfail["mode"] = "once" if case["op"].endswith("once") else "persistent"
+
+                    def lf_hook(o: Any) -> None:
+                        if o.phase == "before" and o.name == "local.list_files" and listfail["mode"]:
+                            listfail["n"] += 1
+                            if listfail["mode"] == "persistent" or listfail["n"] == 1:
+                                raise OSError("injected: listing the metadata directory failed")
+
+                    ip.before.append(lf_hook)
+                    try:
+                        other = tables.schema_of([{"id": 1, "name": "zz", "type": "string", "required": False}], 7)
+                        if case["op"].startswith("create"):
+                            ds.create_table(root, schema=other)
+                        else:
+                            ds.load_table(root)
+                        res.count("listfail_op_returned")
+                    except Exception as e:  # raising is a correct way to fail closed
+                        res.count("listfail_op_raised")
+                        wit["listfail_error"] = f"{type(e).__name__}: {str(e)[:100]}"
+                    finally:
+                        ip.before.remove(lf_hook)
+                        listfail["mode"] = None
+                    if listfail["n"] == 0:
+                        res.count("listfail_not_reached")
                 try:
-                    if case["op"] == "create":
+                    if "listfail" in case["op"]:
+                        t = ds.load_table(root)
+                    elif case["op"] == "create":
                         other = tables.schema_of([{"id": 1, "name": "zz", "type": "string", "required": False}], 7)
                         t = ds.create_table(root, schema=other)
                     else:
